@@ -133,7 +133,7 @@ impl Prop for C06 {
                 if changed >= 3 {
                     out.nontrivial.push(rng::hash_combine(rng::hash_str(&x2), rng::hash_str(&cfg.short())));
                 }
-                if k == 0 && r == 0 && idx < 2 {
+                if out.sample.is_none() && idx < 32 {
                     out.sample = Some(json!({"source": w.name, "config": cfg.short(), "layout A": short(&w.text, 200), "layout B": short(&x2, 200), "gaps changed": changed, "same output": fy == fx}));
                 }
             }
